@@ -244,8 +244,8 @@ def run(work, tier, replay=None):
     open(cfgp, "w").write("SPECIFICATION SSpec\nCONSTANTS\n  Procs = %d\nINVARIANT Balanced\n" % procs)
     rc_tlc, out = run_group(["tlc", "-workers", str(NCPU), "-metadir", os.path.join(d, "meta"), "-config", "ls.cfg", "LockSkeleton.tla"],
                             d, dict(os.environ), 3000, os.path.join(d, "ls.log"))
-    if rc_tlc == -9:
-        raise Inconclusive("LockSkeleton timed out")
+    if rc_tlc < 0:
+        raise Inconclusive("LockSkeleton timed out or was killed (%d)" % rc_tlc)
     m = re.search(r"(\d+) states generated, (\d+) distinct states found", out)
     st = dict(generated=int(m.group(1)) if m else 0, distinct=int(m.group(2)) if m else 0)
     dead = "Deadlock reached" in out
